@@ -1,5 +1,6 @@
 #!/bin/bash
-# Run once after a fresh restore (offline): warms the build cache and pre-builds the monitors.
+# Run once after a fresh restore (offline): warms the Go build cache and pre-builds the
+# monitors of every claimed property (all build variants they need).
 set -u
 cd "$(dirname "$0")"
 export VERIF_ROOT="$(pwd)"
@@ -7,10 +8,12 @@ export GOFLAGS=-mod=mod GOPROXY=off GOSUMDB=off GOTOOLCHAIN=local
 export VERIF_REPO_DIR="${VERIF_REPO_DIR:-/repo}"
 . ./scripts/buildlib.sh
 mkdir -p .build/bin .build/scratch .build/logs evidence replays
-cp /repo/go.sum harness/go.sum.repo 2>/dev/null && rm -f harness/go.sum.repo
 rc=0
-for d in harness/cmd/*/; do
-  n="$(basename "$d")"
-  build_variant plain "$n" || { echo "setup: build failed for $n"; rc=1; }
+for id in $(jq -r '.checks[].property_id' MANIFEST.json); do
+  n="$(echo "$id" | tr 'A-Z' 'a-z')"
+  [ -d "harness/cmd/$n" ] || { echo "setup: no command for $id"; rc=1; continue; }
+  for v in $(variants_for "$id"); do
+    build_variant "$v" "$n" || { echo "setup: build failed for $n ($v)"; rc=1; }
+  done
 done
 exit $rc
